@@ -188,5 +188,6 @@ Proof.
   assert (Hne : set_nth k (last l 0) l <> []).
   { intros E; apply (f_equal (@length nat)) in E; rewrite set_nth_length in E; destruct l; simpl in *; congruence. }
   pose proof (app_removelast_last 0 Hne) as E.
-  apply (f_equal (@length nat)) in E; rewrite set_nth_length, app_length in E; simpl in E; lia.
+  apply (f_equal (@length nat)) in E; rewrite app_length in E; simpl in E.
+  rewrite set_nth_length in E at 1. lia.
 Qed.
